@@ -506,6 +506,7 @@ func loadMany() map[string]*packages.Package {
 		}
 	}
 	paths = append(paths, enginePkg)
+	paths = append(paths, locksScanPatterns...)
 	cfg := &packages.Config{Mode: packages.NeedName | packages.NeedSyntax | packages.NeedTypes | packages.NeedTypesInfo |
 		packages.NeedFiles | packages.NeedImports | packages.NeedDeps, Dir: repo, BuildFlags: []string{"-tags=verif"}}
 	pkgs, err := packages.Load(cfg, paths...)
@@ -752,5 +753,15 @@ func locksExtra(t *tr) string {
 	b.WriteString(strings.Join(lines, ",\n"))
 	b.WriteString("\n]\n")
 	b.WriteString(locksEngineFacts(t, loaded[enginePkg]))
+	var scanned []*packages.Package
+	for _, p := range loaded {
+		if locksScanned(p) {
+			scanned = append(scanned, p)
+		}
+	}
+	sort.Slice(scanned, func(i, j int) bool { return scanned[i].PkgPath < scanned[j].PkgPath })
+	b.WriteString(locksClosureFacts(t, scanned))
+	b.WriteString(locksHandoverSites(t, scanned))
+	b.WriteString(locksSubstr(t, loaded[locksPostprocPkg]))
 	return b.String()
 }
